@@ -487,7 +487,10 @@ void AbstractDiscreteDistribution::discretizeEqualIntervals()
   allBounds.push_back(upperBound);
   for (size_t i = 0; i < numberOfCategories_; ++i)
   {
-    distribution_[values[i]] = (pProb(allBounds[i + 1]) - pProb(allBounds[i])) / condProb;
+    // if the parent has no mass on the domain, uniform probabilities (as in the equal proportions scheme)
+    distribution_[values[i]] = (condProb != 0) ?
+        (pProb(allBounds[i + 1]) - pProb(allBounds[i])) / condProb :
+        1. / static_cast<double>(numberOfCategories_);
   }
 
   return;
